@@ -238,7 +238,8 @@ def minimise_and_report(prop, seed, tier, vres):
     norm = test(tree0)
     if norm is None:
         return None, "violation did not reproduce from its own recorded tree"
-    tree, nexec = minimise(norm, test)
+    budget = getattr(engine_for(prop), "MINIMISE", {})
+    tree, nexec = minimise(norm, test, **budget)
     final = execute(prop, seed, idx, tree=tree, keep=True, tier=tier,
                     want_tree=True)
     OUT.joinpath("replays").mkdir(parents=True, exist_ok=True)
